@@ -150,7 +150,8 @@ class Spec:
 
     def global_axioms(self):
         x = z3.Real("x!ax")
-        return [z3.ForAll([x], z3.Implies(x > 1, rlog(x) > 0)), rlog(z3.RealVal(1)) == 0]
+        from .c_registry import memb_axioms
+        return [z3.ForAll([x], z3.Implies(x > 1, rlog(x) > 0)), rlog(z3.RealVal(1)) == 0] + memb_axioms()
 
     def invariant(self, name, c):
         return list(INVARIANTS[name](c))
